@@ -128,6 +128,67 @@ func (s c12Subnet) w8() int {
 	return int(w)
 }
 
+// c12ExclEntry: one entry of excluded_subnet_from_overrides.  The configuration type is the one of the
+// override subnets (regprocessor.Subnet), so an entry carries a transport label, a weight, a port and a
+// prefix id as well (the shipped reg_config.toml sets all of them on its exclusion entry); every field is a
+// generated dimension.
+type c12ExclEntry struct {
+	cidr      string
+	transport string  // Subnet.Transport as written in the configuration ("" = unset)
+	weight    float64 // a multiple of 1/8, as for the override subnets
+	port      uint32
+	prefixID  prefix.PrefixID
+}
+
+func (e c12ExclEntry) String() string {
+	return fmt.Sprintf("%s{transport=%q weight=%v port=%d prefix_id=%d}", e.cidr, e.transport, e.weight, e.port, int(e.prefixID))
+}
+
+// c12LabelTok: the transport label of a configured subnet for the model: "-" unset, the number of the
+// pb.TransportType the string names ("<Name>_Transport"), "x" a string that names no transport.
+func c12LabelTok(transport string) string {
+	if transport == "" {
+		return "-"
+	}
+	if name, ok := strings.CutSuffix(transport, "_Transport"); ok {
+		if n, ok := pb.TransportType_value[name]; ok {
+			return strconv.Itoa(int(n))
+		}
+	}
+	return "x"
+}
+
+// c12ExclLabels: what the transport field of an exclusion entry can say: nothing, each of the two transports
+// the subnet override knows, another real transport, strings that name no transport.
+var c12ExclLabels = []string{"", "Min_Transport", "Prefix_Transport", "Obfs4_Transport", "DTLS_Transport", "min_transport", "Prefix", "*"}
+
+func c12PlainExcl(cidrs ...string) []c12ExclEntry {
+	var l []c12ExclEntry
+	for _, c := range cidrs {
+		l = append(l, c12ExclEntry{cidr: c})
+	}
+	return l
+}
+
+// c12RandomExcl: the networks of one of the exclusion sets, every other field of every entry drawn
+// independently (half of the entries carry a transport label).
+func c12RandomExcl(r *vlib.Rand, cidrs []string) []c12ExclEntry {
+	var l []c12ExclEntry
+	for _, c := range cidrs {
+		e := c12ExclEntry{cidr: c}
+		if r.Bool() {
+			e.transport = c12ExclLabels[1+r.Intn(len(c12ExclLabels)-1)]
+		}
+		if r.Bool() {
+			e.weight = []float64{28.75, 1, 0.125, 1000}[r.Intn(4)]
+			e.port = []uint32{80, 443, 0, 70000}[r.Intn(4)]
+			e.prefixID = []prefix.PrefixID{prefix.Min, prefix.GetLong, prefix.Rand, prefix.PrefixID(55)}[r.Intn(4)]
+		}
+		l = append(l, e)
+	}
+	return l
+}
+
 type c12Case struct {
 	// registrar
 	auth      bool
@@ -136,7 +197,7 @@ type c12Case struct {
 	enforce   bool
 	minSub    []c12Subnet
 	pfxSub    []c12Subnet
-	excl      []string
+	excl      []c12ExclEntry
 	pctMin    float64
 	pctPfx    float64
 	sel       c12Selector
@@ -192,13 +253,13 @@ func (c *c12Case) config() (all []Subnet, ex []Subnet, key string) {
 	// a subnet of another transport must be dropped by the constructor
 	all = append(all, c12MkSubnets([]c12Subnet{{"10.250.0.0/24", 4, 443, prefix.Min}}, "Obfs4_Transport")...)
 	for _, e := range c.excl {
-		_, n, err := net.ParseCIDR(e)
+		_, n, err := net.ParseCIDR(e.cidr)
 		if err != nil {
 			panic(err)
 		}
-		ex = append(ex, Subnet{CIDR: Ipnet{n}})
+		ex = append(ex, Subnet{CIDR: Ipnet{n}, Weight: e.weight, Port: e.port, Transport: e.transport, PrefixId: e.prefixID})
 	}
-	key = fmt.Sprintf("%v|%s|%s|%s|%v|%v", c.enforce, c12Subnets(c.minSub), c12Subnets(c.pfxSub), strings.Join(c.excl, ","), c.pctMin, c.pctPfx)
+	key = fmt.Sprintf("%v|%s|%s|%v|%v|%v", c.enforce, c12Subnets(c.minSub, "1"), c12Subnets(c.pfxSub, "4"), c.excl, c.pctMin, c.pctPfx)
 	return
 }
 
@@ -397,7 +458,7 @@ func c12ErrKind(err error) string {
 
 func c12V4num(ip net.IP) uint32 { return binary.BigEndian.Uint32(ip.To4()) }
 
-func (s c12Subnet) model() string {
+func (s c12Subnet) model(label string) string {
 	_, n, _ := net.ParseCIDR(s.cidr)
 	ones, _ := n.Mask.Size()
 	isv4 := n.IP.To4() != nil
@@ -411,13 +472,14 @@ func (s c12Subnet) model() string {
 			pfx = fmt.Sprintf("%d~%s~%d", int32(px.ID()), hex.EncodeToString(px.Bytes()), px.FlushPolicy())
 		}
 	}
-	return fmt.Sprintf("%s:%d:%d:%d:%d:%s", vlib.B(isv4), base, ones, s.w8(), s.port, pfx)
+	return fmt.Sprintf("%s:%d:%d:%d:%d:%s:%s", vlib.B(isv4), base, ones, s.w8(), s.port, pfx, label)
 }
 
-func c12Subnets(l []c12Subnet) string {
+// c12Subnets: label = the model's token for the transport string the entries are configured with.
+func c12Subnets(l []c12Subnet, label string) string {
 	var p []string
 	for _, s := range l {
-		p = append(p, s.model())
+		p = append(p, s.model(label))
 	}
 	return strings.Join(p, "/")
 }
@@ -437,10 +499,11 @@ func (c *c12Case) cfgLine(p *RegProcessor) string {
 	ppK := int(math.Round(p.prcntPrefixRegsToOverride * 10))
 	var exs []string
 	for _, e := range c.excl {
-		exs = append(exs, c12Subnet{cidr: e}.model())
+		// the whole entry goes to the model: network, weight, port, prefix id and the transport label
+		exs = append(exs, c12Subnet{cidr: e.cidr, weight: e.weight, port: e.port, prefixID: e.prefixID}.model(c12LabelTok(e.transport)))
 	}
 	return fmt.Sprintf("%s,%s,%s,%d,%d;%s;%s;%s", vlib.B(c.auth), vlib.B(c.ovKind != 0), vlib.B(c.enforce), pmK, ppK,
-		c12Subnets(c.minSub), c12Subnets(c.pfxSub), strings.Join(exs, "/"))
+		c12Subnets(c.minSub, "1"), c12Subnets(c.pfxSub, "4"), strings.Join(exs, "/"))
 }
 
 func (c *c12Case) reqLine() string {
@@ -775,9 +838,11 @@ func c12Run(c *c12Case, out *vlib.Out) (res c12Out) {
 			fail("C12:substitute-outside-configured", "phantom substituted although subnet overrides are not enforced")
 		}
 		if selected != nil {
+			// "never replaces a phantom that lies in an excluded subnet": any entry of the exclusion list, whatever
+			// its other fields say and whatever the transport of the registration
 			for _, e := range c.excl {
-				if c12InNet(e, *selected) {
-					fail("C12:excluded-replaced", fmt.Sprintf("phantom %v lies in excluded subnet %s but was replaced by %s", c.sel.v4, e, c12Resp(resp)))
+				if c12InNet(e.cidr, *selected) {
+					fail("C12:excluded-replaced", fmt.Sprintf("phantom %v of a %v registration lies in the excluded subnet %v but was replaced by %s", c.sel.v4, c.tr, e, c12Resp(resp)))
 				}
 			}
 		}
@@ -1118,7 +1183,7 @@ func c12Random(r *vlib.Rand) *c12Case {
 	c.enforce = r.Chance(3, 4)
 	c.minSub = c12SubnetSets[r.Intn(len(c12SubnetSets))]
 	c.pfxSub = c12SubnetSets[r.Intn(len(c12SubnetSets))]
-	c.excl = c12Excl[r.Intn(len(c12Excl))]
+	c.excl = c12RandomExcl(r, c12Excl[r.Intn(len(c12Excl))])
 	pcts := []float64{100, 100, 100, 0}
 	c.pctMin, c.pctPfx = pcts[r.Intn(4)], pcts[r.Intn(4)]
 	c.sel = c12Selector{v4: net.ParseIP(c12V4Pool[r.Intn(len(c12V4Pool))]), v6: net.ParseIP(fmt.Sprintf("2001:db8:77::%x", r.Intn(60000)+1)),
@@ -1395,6 +1460,77 @@ func c12Report(out *vlib.Out, tag string, n int, res c12Out, oracleOnly bool) {
 	}
 }
 
+// c12ExclGrid: exhaustive over what an exclusion entry can say (8 transport labels x other fields unset /
+// set as in the shipped configuration) x the transport of the registration (Min, Prefix with overrides
+// allowed / disabled) x where the entry stands in the list (alone, behind / in front of an entry that does
+// not contain the phantom and is labelled with the registration's own or the other transport) x phantom
+// inside / outside the entry's network x plain / authenticated registrar with a parameter override.  One
+// weighted IPv4 override subnet per transport and 100 %, so that the only thing that can keep the selector's
+// phantom is the exclusion list: inside => kept (C12:excluded-replaced otherwise), outside => moved into
+// the override subnet of the registration's transport.
+func c12ExclGrid(sink *vlib.Out, emit c12Emit) {
+	id0 := int32(prefix.Min)
+	n := 0
+	type reg struct {
+		tr      pb.TransportType
+		disable bool
+	}
+	regs := []reg{{pb.TransportType_Min, false}, {pb.TransportType_Prefix, false}, {pb.TransportType_Prefix, true}, {pb.TransportType_Min, true}}
+	for _, label := range c12ExclLabels {
+		for full := 0; full < 2; full++ {
+			entry := c12ExclEntry{cidr: "203.0.113.0/25", transport: label}
+			if full == 1 {
+				entry.weight, entry.port, entry.prefixID = 28.75, 80, prefix.GetLong
+			}
+			for _, rg := range regs {
+				own, other := "Min_Transport", "Prefix_Transport"
+				if rg.tr == pb.TransportType_Prefix {
+					own, other = other, own
+				}
+				lists := [][]c12ExclEntry{
+					{entry},
+					{{cidr: "192.0.2.0/24", transport: other}, entry},
+					{entry, {cidr: "192.0.2.0/24", transport: own}},
+					{{cidr: "2001:db8::/32", transport: own}, {cidr: "192.0.2.0/24"}, entry},
+				}
+				for _, list := range lists {
+					for inside := 0; inside < 2; inside++ {
+						for k := 0; k < 2; k++ {
+							c := c12Base()
+							c.tr, c.disable = rg.tr, rg.disable
+							c.minSub, c.pfxSub = c12SubnetSets[1], []c12Subnet{{"10.8.0.0/24", 2, 8443, prefix.OpenSSH2}}
+							c.excl = list
+							c.auth = k == 1
+							if k == 1 {
+								c.ovKind, c.ovPrefix, c.v6 = 1, prefix.TLSClientHello, true
+							}
+							if rg.tr == pb.TransportType_Prefix {
+								c.params = c12PrefixAny(&id0, nil, nil, true)
+							}
+							c.sel.v4 = net.ParseIP("203.0.113.7")
+							if inside == 0 {
+								c.sel.v4 = net.ParseIP("203.0.113.200") // same /24, outside the /25
+							}
+							c.seed = int64(n)
+							res := c12Run(c, sink)
+							moves := !(rg.tr == pb.TransportType_Prefix && rg.disable)
+							if res.ok && inside == 0 && moves && res.chosen != 0 {
+								res.fails = append(res.fails, [2]string{"C12:weighted-subnet-unreachable",
+									fmt.Sprintf("a %v registration whose phantom %v lies in no excluded subnet (%v), on a registrar that overrides 100 %% into one weighted subnet, kept its phantom: %s",
+										c.tr, c.sel.v4, list, c12Resp(res.resp))})
+							}
+							sink.Count("gen:exclusion-grid")
+							sink.Count(fmt.Sprintf("exclusion-grid:label=%s,reg=%d,inside=%d", c12LabelTok(label), int(rg.tr), inside))
+							emit("exclgrid", n, res, false)
+							n++
+						}
+					}
+				}
+			}
+		}
+	}
+}
+
 // c12All runs every generator; each case is identified by (kind, index) and regenerated from VERIF_SEED.
 func c12All(sink *vlib.Out, emit c12Emit) {
 	// 1. sweeps over the weighted choice (every weighted subnet must be reachable)
@@ -1409,6 +1545,9 @@ func c12All(sink *vlib.Out, emit c12Emit) {
 		emit("corpus", i, c12Run(c, sink), false)
 		sink.Count("gen:corpus")
 	}
+
+	// 2b. every exclusion entry x every registration transport
+	c12ExclGrid(sink, emit)
 
 	// 3. random cases (0 % / 100 % only: the gate draw is then irrelevant) + twin runs for forged fields
 	N := vlib.Budget(30000, 400000)
@@ -1564,7 +1703,8 @@ var c12AuthCase = func() *c12Case {
 	c := c12Base()
 	c.auth, c.ovKind, c.enforce = true, 2, true
 	c.minSub, c.pfxSub = c12SubnetSets[3], c12SubnetSets[8]
-	c.excl = c12Excl[2]
+	// exclusion entries written like the one in the shipped reg_config.toml (every field set)
+	c.excl = []c12ExclEntry{{"198.18.0.0/15", "Min_Transport", 28.75, 80, prefix.Min}, {"10.77.0.0/16", "Prefix_Transport", 1, 443, prefix.GetLong}}
 	c.pctMin, c.pctPfx = 100, 100
 	return c
 }
@@ -1700,7 +1840,20 @@ func c12Corpus() []*c12Case {
 	// subnet overrides: Min, Prefix, excluded phantom, v6-only client, phantoms without random ports
 	add(func(c *c12Case) { c.minSub = c12SubnetSets[2]; c.seed = c12SeedFor(0.0, 0.33, 1) })
 	add(func(c *c12Case) { c.minSub = c12SubnetSets[2]; c.seed = c12SeedFor(0.34, 0.66, 1); c.forged = true; c.auth = true })
-	add(func(c *c12Case) { c.minSub = c12SubnetSets[2]; c.excl = []string{"203.0.113.0/24"} })
+	add(func(c *c12Case) { c.minSub = c12SubnetSets[2]; c.excl = c12PlainExcl("203.0.113.0/24") })
+	// the exclusion entry of the shipped reg_config.toml (weight, port and transport = "Min_Transport" set) in
+	// front of a Prefix registration, and an entry labelled Prefix_Transport in front of a Min registration
+	add(func(c *c12Case) {
+		c.tr = pb.TransportType_Prefix
+		c.params = c12PrefixAny(&id0, nil, nil, true)
+		c.pfxSub = c12SubnetSets[2]
+		c.excl = []c12ExclEntry{{"203.0.113.0/25", "Min_Transport", 28.75, 80, prefix.Min}}
+	})
+	add(func(c *c12Case) {
+		c.minSub = c12SubnetSets[2]
+		c.excl = []c12ExclEntry{{"203.0.113.0/25", "Prefix_Transport", 10, 443, prefix.GetLong}}
+		c.auth, c.v6 = true, true
+	})
 	add(func(c *c12Case) { c.minSub = c12SubnetSets[2]; c.v4 = false; c.v6 = true; c.client = net.ParseIP("2001:db8:c::2") })
 	add(func(c *c12Case) {
 		c.tr = pb.TransportType_Prefix
